@@ -11,40 +11,80 @@ import (
 // ---- data snapshot: the heap components an encoding may depend on ----
 
 func (u *Unit) dataSnapshot(st *State) Term {
-	args := make([]Term, len(u.eng.dataComps))
+	args := make([]Term, len(u.eng.dataComps)+1)
+	args[0] = u.comp(st, "alloc")
 	for i, c := range u.eng.dataComps {
-		args[i] = u.comp(st, c)
+		args[i+1] = u.comp(st, c)
 	}
-	return App("Data", "mk-data", args...)
+	// one name per distinct snapshot keeps queries small
+	return u.define("data", App("Data", "mk-data", args...))
 }
 
 func (e *Engine) dataDecl() string {
 	var sb strings.Builder
-	sb.WriteString("(declare-datatypes ((Data 0)) (((mk-data")
+	sb.WriteString("(declare-datatypes ((Data 0)) (((mk-data (data_alloc Int)")
 	for i, c := range e.dataComps {
 		fmt.Fprintf(&sb, " (data_f%d %s)", i, compSort(c))
 	}
 	sb.WriteString("))))\n")
+	// data_ext d0 d1: d1 extends d0 -- every object allocated in d0 has the same contents in d1
+	sb.WriteString("(define-fun data_ext ((d0 Data) (d1 Data)) Bool (and (<= (data_alloc d0) (data_alloc d1))")
+	for i, c := range e.dataComps {
+		f := fmt.Sprintf("data_f%d", i)
+		if strings.HasPrefix(c, "H:") {
+			fmt.Fprintf(&sb, " (forall ((a Addr)) (! (=> (< (aobj a) (data_alloc d0)) (= (select (%s d1) a) (select (%s d0) a))) :pattern ((select (%s d1) a))))", f, f, f)
+		} else {
+			fmt.Fprintf(&sb, " (forall ((i Int)) (! (=> (< i (data_alloc d0)) (= (select (%s d1) i) (select (%s d0) i))) :pattern ((select (%s d1) i))))", f, f, f)
+		}
+	}
+	sb.WriteString("))\n")
 	return sb.String()
 }
 
-// cvOfAny returns the CBOR value denoted by interface value a in state st,
-// unfolding the structure of known dynamic types to the given depth; below
-// that, and for all other dynamic types, the value is cv_of_any(a, data), an
-// uninterpreted function of the value and the data snapshot.
+// cvOfAny returns the CBOR value denoted by interface value a in state st:
+// cv_of_any(a, data), an uninterpreted function of the value and the data
+// snapshot, constrained by the per-constructor axioms of cvAxioms (one
+// non-recursive axiom per dynamic type the encoder is handed in this package).
 func (u *Unit) cvOfAny(st *State, pc Term, a Term, depth int) Term {
-	reg := u.eng.reg
-	d := u.dataSnapshot(st)
-	opaque := App(SCV, "cv_of_any", a, d)
-	if depth <= 0 {
-		return opaque
+	return App(SCV, "cv_of_any", a, u.dataSnapshot(st))
+}
+
+func (e *Engine) dataSel(comp string, d Term) Term {
+	for i, c := range e.dataComps {
+		if c == comp {
+			return App(compSort(c), fmt.Sprintf("data_f%d", i), d)
+		}
 	}
-	t := opaque
-	is := func(c *AnyCon) Term { return Term{fmt.Sprintf("((_ is %s) %s)", c.Con, a.S), SBool} }
-	EI := u.comp(st, ecomp(SInt))
+	panic("dataSel: no component " + comp)
+}
+
+const cvUnroll = 8
+
+// cvAxioms: what the encoder makes of each dynamic type (assumed contract of
+// the cbor library, written once; see DESIGN.md section 3).
+func (e *Engine) cvAxioms() string {
+	var sb strings.Builder
+	reg := e.reg
+	d := Term{"d", "Data"}
+	EI := e.dataSel(ecomp(SInt), d)
 	byteView := func(s Term) Term { return App(SBytes, "view", Select(EI, SArr(s)), SOff(s), SLen(s)) }
+	sb.WriteString("(assert (forall ((d Data)) (! (= (cv_of_any A_nil d) cv_null) :pattern ((cv_of_any A_nil d)))))\n")
+	// frame: the encoding of a value depends only on the objects that existed when the value did
+	sb.WriteString("(assert (forall ((a Any) (d0 Data) (d1 Data)) (! (=> (and (any_ok a (data_alloc d0)) (data_ext d0 d1)) (= (cv_of_any a d0) (cv_of_any a d1))) :pattern ((cv_of_any a d0) (cv_of_any a d1)))))\n")
+	// leaf value of a field of static type ft holding term fv
+	var typed func(ft types.Type, fv Term) Term
+	typed = func(ft types.Type, fv Term) Term {
+		if _, isIface := ft.Underlying().(*types.Interface); isIface {
+			return App(SCV, "cv_of_any", fv, d)
+		}
+		c := reg.AnyConOf(ft)
+		if c == nil {
+			return App(SCV, "cv_of_any", App(SAny, "A_other", IntLit(tidOpaque), IntLit(0)), d)
+		}
+		return App(SCV, "cv_of_any", App(SAny, c.Con, fv), d)
+	}
 	for _, c := range reg.sortedAnyCons() {
-		p := App(c.Payload, c.Sel, a)
+		p := Term{"p", c.Payload}
 		var v Term
 		switch ut := c.T.Underlying().(type) {
 		case *types.Basic:
@@ -63,48 +103,51 @@ func (u *Unit) cvOfAny(st *State, pc Term, a Term, depth int) Term {
 				} else if _, named := c.T.(*types.Named); !named || c.Key == "github.com/veraison/go-cose.byteString" {
 					v = Ite(Eq(SArr(p), IntLit(0)), Term{"cv_null", SCV}, App(SCV, "cv_bstr", byteView(p)))
 				}
-			} else if _, isIface := ut.Elem().Underlying().(*types.Interface); isIface && depth > 1 {
-				// []any: unroll up to 6 elements
-				EA := u.comp(st, ecomp(SAny))
+			} else if _, isIface := ut.Elem().Underlying().(*types.Interface); isIface {
+				EA := e.dataSel(ecomp(SAny), d)
 				arr := Select(EA, SArr(p))
-				v = Ite(Eq(SArr(p), IntLit(0)), Term{"cv_null", SCV}, App(SCV, "cv_arr", u.cvList(st, pc, arr, SOff(p), SLen(p), 0, 6, depth-1)))
+				l := App(SCVL, "cv_list_tail", arr, Add(SOff(p), IntLit(cvUnroll)), Sub(SLen(p), IntLit(cvUnroll)), d)
+				for k := cvUnroll - 1; k >= 0; k-- {
+					el := Select(arr, Add(SOff(p), IntLit(int64(k))))
+					l = Ite(Le(SLen(p), IntLit(int64(k))), Term{"cvnil", SCVL}, App(SCVL, "cvcons", App(SCV, "cv_of_any", el, d), l))
+				}
+				v = Ite(Eq(SArr(p), IntLit(0)), Term{"cv_null", SCV}, App(SCV, "cv_arr", l))
 			} else if c.Key == "[]github.com/fxamacker/cbor/v2.RawMessage" {
-				ES := u.comp(st, ecomp(SSlice))
-				v = Ite(Eq(SArr(p), IntLit(0)), Term{"cv_null", SCV}, App(SCV, "cv_arr", App(SCVL, "cv_rawlist", Select(ES, SArr(p)), SOff(p), SLen(p), EI)))
+				ES := e.dataSel(ecomp(SSlice), d)
+				arr := Select(ES, SArr(p))
+				l := App(SCVL, "cv_rawlist", arr, Add(SOff(p), IntLit(4)), Sub(SLen(p), IntLit(4)), EI)
+				for k := 3; k >= 0; k-- {
+					el := Select(arr, Add(SOff(p), IntLit(int64(k))))
+					ev := Ite(Eq(SLen(el), IntLit(0)), Term{"cv_null", SCV}, App(SCV, "cv_raw", byteView(el)))
+					l = Ite(Le(SLen(p), IntLit(int64(k))), Term{"cvnil", SCVL}, App(SCVL, "cvcons", ev, l))
+				}
+				v = Ite(Eq(SArr(p), IntLit(0)), Term{"cv_null", SCV}, App(SCV, "cv_arr", l))
 			}
 		case *types.Struct:
 			si := reg.Struct(c.T)
 			switch c.Key {
 			case "github.com/fxamacker/cbor/v2.Tag":
-				v = App(SCV, "cv_tag", App(SInt, si.Fields[0].Sel, p), u.cvOfAny(st, pc, App(SAny, si.Fields[1].Sel, p), depth-1))
+				num := App(SInt, si.Fields[0].Sel, p)
+				content := App(SAny, si.Fields[1].Sel, p)
+				// an uninitialised Tag{0, nil} encodes as null
+				v = Ite(And(Eq(num, IntLit(0)), Eq(content, AnyNil)), Term{"cv_null", SCV}, App(SCV, "cv_tag", num, App(SCV, "cv_of_any", content, d)))
 			case "github.com/veraison/go-cose.sign1Message", "github.com/veraison/go-cose.signature", "github.com/veraison/go-cose.signMessage":
 				// toarray structs: field 0 is the blank marker
 				l := Term{"cvnil", SCVL}
 				for i := len(si.Fields) - 1; i >= 1; i-- {
 					f := si.Fields[i]
-					fv := App(f.Sort, f.Sel, p)
-					ft := ut.Field(i).Type()
-					l = App(SCVL, "cvcons", u.cvOfAny(st, pc, u.makeIface(ft, fv), depth-1), l)
+					l = App(SCVL, "cvcons", typed(ut.Field(i).Type(), App(f.Sort, f.Sel, p)), l)
 				}
 				v = App(SCV, "cv_arr", l)
 			}
 		}
-		if v.S != "" {
-			t = Ite(is(c), v, t)
+		if v.S == "" {
+			continue
 		}
+		lhs := App(SCV, "cv_of_any", App(SAny, c.Con, p), d)
+		fmt.Fprintf(&sb, "(assert (forall ((p %s) (d Data)) (! (= %s %s) :pattern (%s))))\n", c.Payload, lhs.S, v.S, lhs.S)
 	}
-	t = Ite(Eq(a, AnyNil), Term{"cv_null", SCV}, t)
-	return u.define("cv", t)
-}
-
-// cvList unrolls the CBOR list of elements arr[off+i], i in [k, n).
-func (u *Unit) cvList(st *State, pc Term, arr, off, n Term, k, max, depth int) Term {
-	if k >= max {
-		return App(SCVL, "cv_list_tail", arr, Add(off, IntLit(int64(k))), Sub(n, IntLit(int64(k))), u.dataSnapshot(st))
-	}
-	el := Select(arr, Add(off, IntLit(int64(k))))
-	return Ite(Le(n, IntLit(int64(k))), Term{"cvnil", SCVL},
-		App(SCVL, "cvcons", u.cvOfAny(st, pc, el, depth), u.cvList(st, pc, arr, off, n, k+1, max, depth)))
+	return sb.String()
 }
 
 // ---- EncMode.Marshal ----
@@ -145,6 +188,7 @@ func (u *Unit) cborMarshal(fr *Frame, st *State, x *ssa.Call, recv Term, args []
 		}
 	}
 	cv := u.cvOfAny(st, st.pc, v, 3)
+	cv = u.define("cv", cv)
 	ok := App(SBool, "enc_ok", cv)
 	out := App(SBytes, "enc", cv)
 	id := u.newObj(st)
